@@ -123,7 +123,7 @@ func c08R2(c *Ctx, r *Report) {
 	// the sections are measured in the order they are packed: the simulated compression of a name depends on
 	// which names came before it
 	{
-		var order []string
+		perCall := map[*ssa.Call][]string{}
 		var calls []*ssa.Call
 		var problems []string
 		allInstrs(fn, func(in ssa.Instruction) {
@@ -145,29 +145,50 @@ func c08R2(c *Ctx, r *Report) {
 					secs = append(secs, sname)
 				}
 			}
-			if len(secs) != 1 {
-				problems = append(problems, fmt.Sprintf("%s: a record length is taken from %v, not from one section: the sections are not measured one after the other", c.pos(call.Pos()), secs))
+			if len(secs) > 1 {
+				// one walk over a concatenation of sections: the order is the order of the concatenation
+				var concat func(v ssa.Value, depth int) ([]string, bool)
+				concat = func(v ssa.Value, depth int) ([]string, bool) {
+					if depth > 8 {
+						return nil, false
+					}
+					if call, ok := v.(*ssa.Call); ok && calleeNameSSA(&call.Call) == "builtin.append" && len(call.Call.Args) == 2 {
+						a, ok1 := concat(call.Call.Args[0], depth+1)
+						b, ok2 := concat(call.Call.Args[1], depth+1)
+						return append(a, b...), ok1 && ok2
+					}
+					for _, sname := range []string{"Question", "Answer", "Ns", "Extra"} {
+						if ld, ok := v.(*ssa.UnOp); ok && readsField("Msg", sname)(ld.X) {
+							return []string{sname}, true
+						}
+					}
+					return nil, false
+				}
+				var got []string
+				for v := range sliceOf(recv) {
+					if ia, ok := v.(*ssa.IndexAddr); ok {
+						if l, ok := concat(ia.X, 0); ok && len(l) > 1 {
+							got = l
+						}
+					}
+				}
+				if got == nil {
+					problems = append(problems, fmt.Sprintf("%s: a record length is taken from %v, not from one section and not from a concatenation of sections whose order can be read off", c.pos(call.Pos()), secs))
+					return
+				}
+				secs = got
+			}
+			if len(secs) == 0 {
+				problems = append(problems, fmt.Sprintf("%s: a record length is taken from a record of no section", c.pos(call.Pos())))
 				return
 			}
-			order = append(order, secs[0])
+			perCall[call] = secs
 			calls = append(calls, call)
 		})
 		sort.SliceStable(calls, func(i, j int) bool { return precedes(calls[i], calls[j]) })
 		var seq []string
 		for _, cl := range calls {
-			for i, o := range order {
-				_ = i
-				_ = o
-			}
-			recv := cl.Call.Value
-			if !cl.Call.IsInvoke() {
-				recv = cl.Call.Args[0]
-			}
-			for _, sname := range []string{"Question", "Answer", "Ns", "Extra"} {
-				if anyIn(sliceOf(recv), readsField("Msg", sname)) {
-					seq = append(seq, sname)
-				}
-			}
+			seq = append(seq, perCall[cl]...)
 		}
 		if len(problems) == 0 && strings.Join(seq, " ") != "Question Answer Ns Extra" {
 			problems = append(problems, fmt.Sprintf("sections are measured in the order [%s], they are packed in the order [Question Answer Ns Extra]: a name first seen in a later section is taken for compressed too early", strings.Join(seq, " ")))
